@@ -106,7 +106,7 @@ XalanDOMStringPool::get(
 {
     assert(m_stringCount == m_hashTable.size());
 
-    if (theString == 0 || *theString == 0)
+    if (theString == 0 || *theString == 0 || theLength == 0)
     {
         return s_emptyString;
     }
